@@ -316,6 +316,9 @@ func C19() *engine.Check {
 				// the same bytes in another order: every rotation (k = 24 moves the nonce behind the box, k = len-16 the tag in
 				// front), the nonce / tag / body parts in every other order, the whole reversed
 				for k := 1; k < len(stored); k++ {
+					if n := len(stored); n > 1200 && !(k <= 64 || k >= n-64 || k%251 == 0) {
+						continue // long values: the rotations near both ends (nonce, tag, last block) and every 251st in between
+					}
 					kind := "rotation"
 					if k == 24 {
 						kind = "rotation/nonce-moved-behind-the-box"
